@@ -25,7 +25,8 @@ CHECKS = {
              "from gwcs/wcs.py by the fail-closed py2coq translator: forward_transform is the chain of step transforms; get_transform "
              "downstream = chain of the slice, upstream = inverses reversed, self = None, unknown frame = CoordinateFrameError in either "
              "position, lookup by object = by name; inverse expressions invert; fix_inputs (hand model) evaluates the original at the "
-             "filled point. The regenerated code is also run inside Coq against the implementation on all frame pairs of generated pipelines.",
+             "filled point, and the re-insertion table puts every fixed value at its own position and keeps the free inputs in order "
+             "(FillTab.v). The regenerated code is also run inside Coq against the implementation on all frame pairs of generated pipelines.",
         ref="5 C01", technique="Coq proof over model regenerated from source by translator (py2coq) + vm_compute correspondence"),
     "C02": dict(
         text="Theorems over the regenerated forward_transform and a hand model of backward_transform: backward evaluates the step inverses "
@@ -41,7 +42,8 @@ CHECKS = {
     "C13": dict(
         text="Theorems over the index/shape wrappers REGENERATED from gwcs/api.py each run (array-index variants are the pixel variants "
              "reversed; world_to_array_index(_values) = toindex of the reversed inverse; array_shape = pixel_shape reversed after ANY "
-             "history of assignments; wrong-length pixel_shape rejected with state unchanged) and over utils._toindex (nearest pixel "
+             "history of assignments; a wrong-length shape is rejected by either setter with state unchanged, so the stored shape has one "
+             "entry per pixel axis after ANY history) and over utils._toindex (nearest pixel "
              "centre, ties up, for every rational; binary64 instance swept on all 1/8 multiples |x|<=256). Regenerated code is run "
              "inside Coq against the implementation; dims/bounds/separability are checked by a property oracle over WCS families.",
         ref="5 C13", technique="Coq proof over model regenerated from source by translator + vm_compute correspondence"),
@@ -55,8 +57,10 @@ CHECKS = {
     "C08": dict(
         text="Theorem history_independent: for ANY interleaving of queries with cache-resetting edits, each answer equals that of a freshly "
              "built twin, and queries keep the pipeline. Its premises are Coq-computed obligations on the attribute write table REGENERATED "
-             "from wcs.py+api.py each run (every edit transitively assigns _approx_inverse=None; queries assign nothing but the cache). "
-             "Twin differential on the implementation incl. all [query; edit; query] pairs.",
+             "from wcs.py+api.py each run (every edit transitively assigns _approx_inverse=None on every normally returning path; queries "
+             "assign nothing but the cache; no query mutates in place an object obtained from the WCS (alias table) or an object the "
+             "caller passed in (parameter table, may-alias through numpy's no-copy conversions)). Twin differential on the "
+             "implementation incl. all [query; edit; query] pairs, mutable arguments compared before/after, separability-changing edits.",
         ref="5 C08", technique="Coq proof (invariant over histories) with premises computed on a source-derived write table + twin differential"),
     "C03": dict(
         text="Theorems over a hand model (IEEE binary64 comparisons via Coq primitive floats) of __call__'s defaults and box evaluation: "
@@ -66,7 +70,7 @@ CHECKS = {
         ref="5 C03", technique="Coq proof over hand model with primitive floats + AST pins + bit-exact vm_compute correspondence"),
     "C04": dict(
         text="Theorems over a hand model of invert's routing, the solver's blanking tail and in_image: in_image_spec (correct on both "
-             "paths), iterative_masks, masking_off_ignores_box; the full clause invert_masks_both_paths is stated, proved for a masking "
+             "paths), nonfinite_pixel_not_in_image, in_image_without_box, iterative_masks, masking_off_ignores_box; the full clause invert_masks_both_paths is stated, proved for a masking "
              "analytic path and REFUTED for the code as it stands (known finding). Tied by AST pins and bit-exact correspondence of the "
              "masking / in_image decisions computed in Coq.",
         ref="5 C04", technique="Coq proof over hand model (primitive floats) + refutation witness + AST pins + correspondence"),
@@ -118,7 +122,8 @@ CHECKS = {
         text="Theorem roundtrip over converters-as-field-tables: every field named by the specification survives write-then-read when "
              "the write and read tables agree on an unshared key. The tables are REGENERATED each run from gwcs/converters/wcs.py by an "
              "extractor that follows variable rebinding (which is how the dropped SpectralFrame reference_position was exposed and "
-             "repaired), and Coq computes the premise and instantiates the theorem for every converter class. Real ASDF round trips "
+             "repaired), and, per model class, from the transform converters (selector / geometry / spectroscopy, constructor parameters read from the "
+             "model's own __init__); Coq computes the premise and instantiates the theorem for every converter / model class. Real ASDF round trips "
              "over a zoo of frames/transforms/open modes compare fields, behaviour bit for bit, tree idempotence; deepcopy/pickle isolation.",
         ref="5 C09", technique="Coq proof with premises computed on tables regenerated from source + real ASDF round-trip correspondence"),
     "C10": dict(
